@@ -365,3 +365,17 @@ Proof.
   - intros [H1 H2]. destruct s as [|b s]; [simpl in H1; lia |]. inversion H2; subst.
     exists [b], s. repeat split; [constructor; assumption | apply matches_Star_Chr; assumption].
 Qed.
+
+(* ---------------------------------------------------------------- a lower bound on match lengths *)
+Fixpoint min_len (r : re) : nat :=
+  match r with
+  | Empty => 0
+  | Eps => 0
+  | Chr _ => 1
+  | Cat a b => min_len a + min_len b
+  | Alt a b => Nat.min (min_len a) (min_len b)
+  | Star _ => 0
+  end.
+
+Lemma min_len_le r s : matches r s -> min_len r <= length s.
+Proof. induction 1; simpl; rewrite ?app_length; lia. Qed.
